@@ -149,6 +149,12 @@ impl MemTable {
 		!iter.is_valid()
 	}
 
+	/// Bytes reserved by `add` calls in flight (verification facade).
+	#[cfg(surrealkv_verif)]
+	pub(crate) fn verif_reserved(&self) -> usize {
+		self.reserved.load(Ordering::Acquire)
+	}
+
 	pub(crate) fn size(&self) -> usize {
 		self.skiplist.size() as usize
 	}
